@@ -124,7 +124,7 @@ PROPS = {
 }
 
 NOT_APPLICABLE = {
-    'C05': 'accepted language of Version::parse is fixed by how winnow combinators compose (prefix match, no end-of-input check); no contract can be attached to `impl Parser` values in the installed Verus, and Kani did not finish the shortest valid input (5 bytes) in 20 min',
+    'C05': 'accepted language of Version::parse is fixed by how winnow combinators compose (prefix match, no end-of-input check); no contract can be attached to `impl Parser` values in the installed Verus, and Kani did not finish the shortest valid input (5 symbolic bytes) in 20 min, nor in 25 min with alloc::fmt::format stubbed and the bytes drawn from 8 symbols, so not even a bounded Kani stand-in is available',
     'C12': 'print -> parse round trip of Version is core::fmt composed with the winnow parser; neither is within reach of Verus (no str/fmt reasoning) or Kani (format! + winnow)',
     'C13': 'print -> parse round trip of Range: same text layer (Display shapes vs primitive parser); only "Display for BoundSet never hits unreachable! on a well formed interval" is decided, under C06',
     'C17': 'error input()/offset()/location() depend on where winnow leaves the input on failure, on str slicing and a pointer difference; error kinds on which combinator fails first; none expressible as a contract on code either tool can read',
